@@ -42,6 +42,8 @@ def dtm_client(classes):
 
 
 PIECES = {"Q": "Q", "R": "R", "B": "B", "N": "N"}
+UNRELATED = ["rnbqkbnr/pppppppp/8/8/8/8/PPPPPPPP/RNBQKBNR w KQkq - 0 1", "r1bq1rk1/pp2ppbp/2np1np1/8/3NP3/2N1BP2/PPPQ2PP/R3KB1R w KQ - 3 9",
+             "8/5pk1/6p1/3R4/2r4P/6P1/5PK1/8 w - - 0 40", "8/2p5/3p4/KP5r/1R3p1k/8/4P1P1/8 w - - 0 1", "4k3/8/8/8/8/8/4P3/4K3 w - - 0 1"]
 
 
 def random_root(rnd, cls, ref):
@@ -175,6 +177,20 @@ def worker(args):
                 hmc = min(99, max(0, 100 - p_need + rnd.choice([-2, -1, 0, 0, 1, 1, 2])))
                 res["boundary"] = res.get("boundary", 0) + 1
             fen = "%s %d %d" % (base, hmc, 60)
+            if i > 0 and rnd.random() < .3:
+                # unrelated timed searches in between: the resident table is kept for a few of them (and must stay protected from their
+                # hash traffic), then dropped; afterwards the material of the table is searched again
+                for _ in range(rnd.randint(1, 6)):
+                    st0 = eng.nlines()
+                    send("position fen " + rnd.choice(UNRELATED))
+                    send("go movetime %d" % rnd.choice([15, 30, 60]))
+                    if not eng.wait_for(lambda l: l.startswith("bestmove"), st0, 60):
+                        res["viol"].append(("no-bestmove", " ; ".join(script[-8:])))
+                        raise StopIteration
+                res["unrelated"] = res.get("unrelated", 0) + 1
+            if i > 0 and rnd.random() < .15:
+                send(rnd.choice(["ucinewgame", "setoption name Clear Hash"]))
+                res["cleared"] = res.get("cleared", 0) + 1
             send("position fen " + fen)
             if len(cls) == 4 and rnd.random() < .3:
                 # a search stopped during table generation, then the real one
@@ -208,6 +224,8 @@ def worker(args):
             res["fens"].add(fen)
             if len(res["samples"]) < 1 and zone == "exact":
                 res["samples"].append("%s -> %s ; %s" % (fen, [l for l in lines if " pv " in l][-1:], r[1]))
+    except StopIteration:
+        pass
     finally:
         rc = eng.close()
         if rc != 0:
@@ -237,12 +255,13 @@ def run(c):
         jobs.append((c.seed * 10000 + i, cl, all_classes, per))
     zones, tot, incon = {}, 0, 0
     boundary = 0
+    unrelated = cleared = 0
     fens = set()
     with concurrent.futures.ThreadPoolExecutor(max_workers=core.NCPU) as ex:
         for r in ex.map(worker, jobs):
             for kind, wit in r["viol"]:
                 c.violation("tb-exact-results", kind, wit)
-            tot += r["n"]; incon += r["incon"]; boundary += r.get("boundary", 0)
+            tot += r["n"]; incon += r["incon"]; boundary += r.get("boundary", 0); unrelated += r.get("unrelated", 0); cleared += r.get("cleared", 0)
             fens |= r["fens"]
             for k, v in r["zones"].items():
                 zones[k] = zones.get(k, 0) + v
@@ -251,11 +270,11 @@ def run(c):
     c.evaluations = tot
     c.distinct = len(fens)
     c.rule = ("one case = one 'go infinite' + stop on a random legal placement of a pawnless <=4-men class (3-men classes and 4-men classes, oracle = independent retrograde solution) with "
-              "half-move clock in {0, 1..60, 60..99, 90..99} and, for 45% of the decisive roots, within +-2 of the clock at which the table's mate just fits before the 50-move limit, Hash in {8,16,64}, Threads 1..4, several roots per process (table reuse/replacement), 30% of 4-men roots "
+              "half-move clock in {0, 1..60, 60..99, 90..99} and, for 45% of the decisive roots, within +-2 of the clock at which the table's mate just fits before the 50-move limit, Hash in {8,16,64}, Threads 1..4, several roots per process (table reuse/replacement; 30% of the later roots preceded by 1..6 unrelated timed searches, 15% by Clear Hash or ucinewgame), 30% of 4-men roots "
               "preceded by a search stopped during table generation; judged: exact 'mate N' inside the 50-move margin, cp score on drawn roots, successor of bestmove keeps "
               "the value (shortest win / longest defence / no draw->loss), no mate score beyond the 50-move limit (3-men classes; 4-men: only N >= DTM). "
               "distinct_nontrivial = distinct root FENs that produced tablebase output")
-    c.extra.update(roots_at_the_50_move_margin=boundary, zones=zones, searches_without_tb_output=incon, oracle_classes=all_classes, oracle_positions_verified=st.get("positions_checked", 0), exhaustive=False)
+    c.extra.update(roots_at_the_50_move_margin=boundary, roots_after_unrelated_timed_searches=unrelated, roots_after_clear_hash_or_ucinewgame=cleared, zones=zones, searches_without_tb_output=incon, oracle_classes=all_classes, oracle_positions_verified=st.get("positions_checked", 0), exhaustive=False)
     c.extra["inconclusive_allowed"] = 10 ** 9
     c.assumptions += ["DTM oracle = independent retrograde solution (h_tb solve: mini rules engine only, no engine code) that passed the exhaustive forward Bellman self-check in this run", "4-men roots beyond the 50-move margin are not judged for exactness"]
     if zones.get("exact", 0) == 0:
